@@ -1,3 +1,6 @@
+#[cfg(crux_verif)]
+use crate::verif::sync::Mutex;
+#[cfg(not(crux_verif))]
 use std::sync::Mutex;
 
 use serde::{Deserialize, Serialize};
@@ -34,8 +37,6 @@ impl ResolveRegistry {
     {
         let (effect, resolve) = effect.serialize();
 
-        #[cfg(crux_verif)]
-        let _registry_scope = crate::verif::LockScope::new("registry");
         let id = self
             .0
             .lock()
@@ -56,8 +57,6 @@ impl ResolveRegistry {
         id: EffectId,
         body: &mut dyn erased_serde::Deserializer,
     ) -> Result<(), BridgeError> {
-        #[cfg(crux_verif)]
-        let _registry_scope = crate::verif::LockScope::new("registry");
         let mut registry_lock = self.0.lock().expect("Registry Mutex poisoned");
 
         let entry = registry_lock.get_mut(id.0 as usize);
